@@ -35,6 +35,12 @@ def maker_rules(env, prog, R, prefix, tag, maker, cert, msg_ty, content):
         for i, n in enumerate(nodes):
             pc = flow.pathcond(n)
             ok, _ = implies(pc, Atom(ins_atom))
+            if not ok:
+                # the two-step spelling: `ensure!(!used.contains(&author)); used.insert(author);` before the vote is counted
+                absent, _ = implies(pc, Not(Atom("c:self.used.contains(%s)" % author)))
+                ins = [d for d in flow.dominators(n) if d["k"] == "mcall" and d["name"] == "insert" and ctx.term(d["recv"]) == "self.used"
+                       and ctx.term(d["args"][0]) == author]
+                ok = absent and bool(ins)
             R.judge(ok, prefix + ".G1", key(f, "%s only after used.insert(author) succeeded%s" % (kind, tag), i), n["sp"], ins_atom,
                     "%s happens without a successful `self.used.insert(%s)`: an authority can be counted twice (path condition %s)"
                     % (kind, author, show(pc)))
